@@ -167,6 +167,10 @@ class C10(_AppSpec):
                 out.append(self.job("c10", dict(s, selection="default", scheme="minimal")))
             for s in docs.g3_shards(["heading-levels", "blank-lines-and-trailing-spaces", "list-indents"]):
                 out.append(self.job("c10", dict(s, selection="default"), budget=300.0))
+            # two files in one invocation, the last one clean / needing a fix
+            for second in ("# ok\n", "x  \n\n\ny"):
+                for s in docs.g1_shards(1) + docs.g2_shards(["a  \n"], replace=True):
+                    out.append(self.job("c10", dict(s, selection="default", second=second)))
         else:
             base = docs.g1_shards(2) + docs.g2_shards(docs.load_pool("core"), replace=True)
             for scheme in ("default", "minimal"):
@@ -174,10 +178,13 @@ class C10(_AppSpec):
                     out.append(self.job("c10", dict(s, selection="default", scheme=scheme)))
             for s in docs.g1_shards(1) + docs.g2_shards(docs.load_pool("mini"), replace=True):
                 out.append(self.job("c10", dict(s, selection="all")))
+            for second in ("# ok\n", "x  \n\n\ny", ""):
+                for s in docs.g1_shards(1) + docs.g2_shards(docs.load_pool("mini"), replace=True):
+                    out.append(self.job("c10", dict(s, selection="default", second=second)))
         return out
 
     def bounds_text(self, tier):
-        return {"documents": "G1 length 0..1 + mini pool one cell (quick) / G1 0..2 + core pool (thorough)", "files_per_invocation": 1,
+        return {"documents": "G1 length 0..1 + mini pool one cell (quick) / G1 0..2 + core pool (thorough)", "files_per_invocation": "1, and 2 (second file clean / needing a fix)",
                 "schemes": "default and minimal return-code schemes", "note": "multi-file invocations are covered by C13/C18"}
 
 
@@ -214,7 +221,7 @@ class C14(_AppSpec):
                  "(compared by str(), pragma token removed, end-of-stream included) in order, then every line with its number and exact text (symbolic string equality), then completed; "
                  "a disabled recorder logs nothing; distinct = distinct call-shape strings")
     stubs = _STUBS + ["recording rule /verif/plugins/recorder_rule.py registered through the real --add-plugin path"]
-    outside = _AppSpec.outside + ["fix-mode passes (the recorder is not fix-capable; fix-mode life-cycle is exercised indirectly by C08-C10)"]
+    outside = _AppSpec.outside + ["fix mode: only the shape of each pass (start token* line* completed) is asserted for a non-fix and a fix-capable recorder, not the equality of the delivered tokens with a direct parse"]
 
     def shards(self, tier):
         out = []
@@ -226,7 +233,13 @@ class C14(_AppSpec):
             for s in docs.g1_shards(1):
                 out.append(self.job("c14", dict(s, second="# x\n\n- y\n")))
                 out.append(self.job("c14", dict(s, disabled=True)))
+            for fixrule in (False, True):
+                for s in docs.g1_shards(1) + docs.g2_shards(["a  \n\n\n\nb\t\n"], replace=True)[::2]:
+                    out.append(self.job("c14fix", dict(s, fixrule=fixrule)))
         else:
+            for fixrule in (False, True):
+                for s in docs.g1_shards(1) + docs.g2_shards(["a  \n\n\n\nb\t\n"] + docs.load_pool("mini"), replace=True):
+                    out.append(self.job("c14fix", dict(s, fixrule=fixrule)))
             pool = docs.load_pool("core") + ["<!-- pyml disable-next-line md013-->\n", "a"]
             for s in docs.g1_shards(2) + docs.g2_shards(pool, replace=True):
                 out.append(self.job("c14", s))
@@ -408,7 +421,7 @@ class C15(_AppSpec):
 
     def shards(self, tier):
         out = []
-        docs_a = ["# a\n\nb  \nc"] if tier == "quick" else ["# a\n\nb  \nc", "", "- a\n\n\n+ b\t\n"]
+        docs_a = ["# a\n\n- b\n  - c\n\nd  \ne"] if tier == "quick" else ["# a\n\n- b\n  - c\n\nd  \ne", "# a\n\nb  \nc", "", "- a\n\n\n+ b\t\n"]
         for sk in docs_a:
             for mode in ("scan", "fix"):
                 for cont in (False, True):
@@ -451,6 +464,8 @@ class C11(_AppSpec):
             out.append(self.job("c11kernel", {"p": p, "command": "disable-next-line", "ident": "line-length"}))
             out.append(self.job("c11kernel", {"p": p, "command": "disable-next-line", "ident": "md999x"}))
             out.append(self.job("c11kernel", {"p": p, "command": "disable-num-lines", "digits": 1, "ident": "nope"}))
+        out.append(self.job("c11kernel2", {"kinds": ["disable-next-line", "disable-num-lines"]}, budget=400.0))
+        out.append(self.job("c11kernel2", {"kinds": ["disable-num-lines", "disable-num-lines"]}, budget=400.0))
         pragmas = [
             ("<!-- pyml disable-next-line md009-->", "disable-next-line", 1, ["md009"], True),
             ("<!--- pyml disable-next-line no-trailing-spaces-->", "disable-next-line", 1, ["md009"], True),
